@@ -647,6 +647,35 @@ func ruleDecodeHooksPassValuesOn(c *Check, p *Prog, rule string) {
 					continue
 				}
 				for _, t := range []*Term{a, b} {
+					// the own type kept in a package-level value computed once
+					if u := t.unconv(); u.Op == "global" {
+						var gl *ssa.Global
+						switch x := u.V.(type) {
+						case *ssa.Global:
+							gl = x
+						case *ssa.UnOp:
+							gl, _ = x.X.(*ssa.Global)
+						}
+						if gl != nil && gl.Pkg != nil && gl.Pkg.Pkg.Path() == configPkg {
+							if initFn := gl.Pkg.Func("init"); initFn != nil {
+								for _, ib := range initFn.Blocks {
+									for _, iin := range ib.Instrs {
+										if st, isSt := iin.(*ssa.Store); isSt && st.Addr == ssa.Value(gl) {
+											if cv, isCall := st.Val.(*ssa.Call); isCall && commonName(cv.Common()) == "reflect.TypeOf" && len(cv.Common().Args) == 1 {
+												arg := cv.Common().Args[0]
+												if mi, isMI := arg.(*ssa.MakeInterface); isMI {
+													arg = mi.X
+												}
+												if nt, isN := derefType(arg.Type()).(*types.Named); isN && nt.Obj().Pkg() != nil && nt.Obj().Pkg().Path() == configPkg {
+													own = true
+												}
+											}
+										}
+									}
+								}
+							}
+						}
+					}
 					t.Walk(func(y *Term) bool {
 						if y.Op != "call" || y.Name != "reflect.TypeOf" {
 							return true
